@@ -327,4 +327,15 @@ c05_hin_walk!(c05_hypergeometric_hin_walk_10_5_3, 10, 5, 3, 13);
 //@ funcs: Hypergeometric::new; Hypergeometric::sample (HIN walk)
 //@ bounds: (N, K, n) = (52, 4, 5); every word; unwind 58 with unwinding assertions ON
 //@ assumes: none
-c05_hin_walk!(c05_hypergeometric_hin_walk_52_4_5, 52, 4, 5, 58);
+#[kani::proof]
+#[kani::unwind(58)]
+fn c05_hypergeometric_hin_walk_52_4_5() {
+    // n1 = 4 < k = 5: the walk must stop at n1 (defect fixed in /repo, see known_findings.json)
+    let mut rng = SymRng::new(1);
+    let d = Hypergeometric::new(52, 4, 5).unwrap();
+    let x = d.sample(&mut rng);
+    vassert!(x <= 4, "Hypergeometric(HIN) sample above min(n, K)");
+    vassert!(rng.pos == 1, "Hypergeometric(HIN) consumes exactly one word per sample");
+    kani::cover!(x == 0, "lower end of the support");
+    kani::cover!(x == 4, "upper end of the support");
+}
